@@ -18,4 +18,4 @@ class Part(IC.InboxSched):
     prop = 2
 
 
-PARTS = [Part()]
+PARTS = [Part(), IC.DeliverRestart()]
